@@ -152,6 +152,99 @@ func init() {
 		}
 		w.P("]")
 
+		// QUICID2Spec: for every case whose FrameBuilder is a &QUICRandomFrames{…} literal, the PING count bounds
+		// (the count is drawn from [MinPING, MaxPING), or is MinPING when MaxPING <= MinPING)
+		type pb struct {
+			name     string
+			min, max string
+		}
+		var bounds []pb
+		for _, d := range pf.Decls {
+			fd, ok := d.(*ast.FuncDecl)
+			if !ok || fd.Name.Name != "QUICID2Spec" || fd.Recv != nil {
+				continue
+			}
+			ast.Inspect(fd.Body, func(n ast.Node) bool {
+				cc, ok := n.(*ast.CaseClause)
+				if !ok {
+					return true
+				}
+				var lit *ast.CompositeLit
+				for _, st := range cc.Body {
+					ast.Inspect(st, func(m ast.Node) bool {
+						if cl, ok := m.(*ast.CompositeLit); ok && lit == nil {
+							if id, ok := cl.Type.(*ast.Ident); ok && id.Name == "QUICRandomFrames" {
+								lit = cl
+							}
+						}
+						return lit == nil
+					})
+				}
+				if lit == nil {
+					return false
+				}
+				mn, mx := "0", "0"
+				for _, e := range lit.Elts {
+					kv, ok := e.(*ast.KeyValueExpr)
+					if !ok {
+						continue
+					}
+					k, ok := kv.Key.(*ast.Ident)
+					bl, ok2 := kv.Value.(*ast.BasicLit)
+					if !ok || !ok2 || bl.Kind != token.INT {
+						continue
+					}
+					v := constant.MakeFromLiteral(bl.Value, token.INT, 0).ExactString()
+					switch k.Name {
+					case "MinPING":
+						mn = v
+					case "MaxPING":
+						mx = v
+					}
+				}
+				for _, e := range cc.List {
+					if id, ok := e.(*ast.Ident); ok {
+						bounds = append(bounds, pb{id.Name, mn, mx})
+					}
+				}
+				return false
+			})
+		}
+		// aliases get the bounds of their target
+		for _, q := range ids {
+			for _, d := range pf.Decls {
+				gd, ok := d.(*ast.GenDecl)
+				if !ok || gd.Tok != token.VAR {
+					continue
+				}
+				for _, sp := range gd.Specs {
+					vs := sp.(*ast.ValueSpec)
+					for i, n := range vs.Names {
+						if n.Name != q.name || i >= len(vs.Values) {
+							continue
+						}
+						if al, ok := vs.Values[i].(*ast.Ident); ok {
+							for _, b := range bounds {
+								if b.name == al.Name {
+									bounds = append(bounds, pb{q.name, b.min, b.max})
+								}
+							}
+						}
+					}
+				}
+			}
+		}
+		w.P("/-- u_parrot.go `QUICID2Spec`: (QUICID, MinPING, MaxPING) of the built-in specs whose frame builder is `QUICRandomFrames` -/")
+		w.P("def randomFramePing : List (String × Nat × Nat) := [")
+		for i, b := range bounds {
+			sep := ","
+			if i == len(bounds)-1 {
+				sep = ""
+			}
+			w.P("  (%q, %s, %s)%s", b.name, b.min, b.max, sep)
+		}
+		w.P("]")
+
 		// ---- internal/wire: parameter ids + PopulateFromUQUIC switch table
 		wp, err := c.Load("internal/wire")
 		if err != nil {
